@@ -58,6 +58,12 @@ def gen(ctx, label):
         [{"kind": "filler", "sub": ".", "writes": [[0, 1, "dtype"], [0, 2], [0, 1, "dtype"], [0, 1]], "reopen": False},
          {"kind": "multi", "writers": [[[0, 1, "dtype"], [0, 2]], [[1, 1, "dtype"]]], "reopen": True}],
     ]
+    directed += [
+        # sibling directories whose names differ only after the last dot, at two levels, one of them written again
+        [{"kind": "filler", "sub": "part.0", "writes": [[0, 3]], "reopen": False}, {"kind": "filler", "sub": "part.1", "writes": [[0, 2], [1, 1]], "reopen": False},
+         {"kind": "filler", "sub": "a/v1.2", "writes": [[0, 2]], "reopen": True}, {"kind": "filler", "sub": "a/v1.3", "writes": [[0, 3]], "reopen": False},
+         {"kind": "filler", "sub": "part.0", "writes": [[0, 1]], "reopen": False}, {"kind": "filler", "sub": "b/x.json", "writes": [[0, 1]], "reopen": False}],
+    ]
     for j, h in enumerate(directed):
         cases.insert(0, {"root": str(ctx.scratch / f"{label}_d{j}"), "fmt": ["fb", "npz", "tfrec"][j % 3], "eps": 2, "hist": h,
                          "hashes": [] if j >= 5 and j % 2 == 1 else ["sha256"]})
